@@ -213,9 +213,11 @@ func runNameUnit(m *mon, u int) bool {
 	if bound < shapeListLen+1 {
 		bound = shapeListLen + 1
 	}
+	// every path segment of the name may legitimately resolve a reference again
+	budget := stepBudget + 10*(strings.Count(ns.name, ".")+1)
 	build := func() *ucfg.Config {
 		var c *ucfg.Config
-		m.do(call{entry: "NewFrom", bound: bound, desc: func() string { return "shape " + sh.name + " options " + o.name }}, func() {
+		m.do(call{entry: "NewFrom", bound: bound, budget: budget, desc: func() string { return "shape " + sh.name + " options " + o.name }}, func() {
 			c, _ = ucfg.NewFrom(sh.build(), opts...)
 		})
 		return c
@@ -265,7 +267,7 @@ func runNameUnit(m *mon, u int) bool {
 			res.SetAdd("entry_point", g.entry)
 			for _, idx := range idxs {
 				idx := idx
-				st := m.do(call{entry: g.entry, class: classOfNameCall(ns.label, name, true, idx, o.maxIdx), bound: bound, hasIdx: true, idx: idx, desc: descr(g.entry, true, idx)},
+				st := m.do(call{entry: g.entry, class: classOfNameCall(ns.label, name, true, idx, o.maxIdx), bound: bound, budget: budget, hasIdx: true, idx: idx, desc: descr(g.entry, true, idx)},
 					func() { g.f(c, idx) })
 				if st != stOK {
 					c = build()
@@ -273,11 +275,11 @@ func runNameUnit(m *mon, u int) bool {
 			}
 		}
 		res.SetAdd("entry_point", "CountField")
-		m.do(call{entry: "CountField", class: "name-" + ns.label, bound: bound, desc: descr("CountField", false, 0)}, func() { c.CountField(name, opts...) })
+		m.do(call{entry: "CountField", class: "name-" + ns.label, bound: bound, budget: budget, desc: descr("CountField", false, 0)}, func() { c.CountField(name, opts...) })
 		res.SetAdd("entry_point", "HasField")
-		m.do(call{entry: "HasField", class: "name-" + ns.label, bound: bound, desc: descr("HasField", false, 0)}, func() { c.HasField(name) })
+		m.do(call{entry: "HasField", class: "name-" + ns.label, bound: bound, budget: budget, desc: descr("HasField", false, 0)}, func() { c.HasField(name) })
 		res.SetAdd("entry_point", "PathOf")
-		m.do(call{entry: "PathOf", class: "name-" + ns.label, bound: bound, desc: descr("PathOf", false, 0)}, func() { c.PathOf(name, ".") })
+		m.do(call{entry: "PathOf", class: "name-" + ns.label, bound: bound, budget: budget, desc: descr("PathOf", false, 0)}, func() { c.PathOf(name, ".") })
 		return true
 	}
 
@@ -316,7 +318,7 @@ func runNameUnit(m *mon, u int) bool {
 				return true
 			}
 			var err error
-			st := m.do(call{entry: s.entry, class: classOfNameCall(ns.label, name, true, idx, o.maxIdx), bound: bound, hasIdx: true, idx: idx, desc: descr(s.entry, true, idx)},
+			st := m.do(call{entry: s.entry, class: classOfNameCall(ns.label, name, true, idx, o.maxIdx), bound: bound, budget: budget, hasIdx: true, idx: idx, desc: descr(s.entry, true, idx)},
 				func() { err = s.f(c, idx) })
 			if st == stGrew && idx > o.maxIdx {
 				accepted = true
@@ -325,11 +327,11 @@ func runNameUnit(m *mon, u int) bool {
 				res.Ev("c_setter_calls_accepted", 1)
 				if idx >= -1 && idx <= 1 {
 					d := func() string { return "after successful " + descr(s.entry, true, idx)() }
-					m.do(call{entry: "Unpack", class: "after-" + s.entry, bound: bound, desc: d}, func() {
+					m.do(call{entry: "Unpack", class: "after-" + s.entry, bound: bound, budget: budget, desc: d}, func() {
 						var out map[string]interface{}
 						c.Unpack(&out, opts...)
 					})
-					m.do(call{entry: "FlattenedKeys", class: "after-" + s.entry, bound: bound, desc: d}, func() { c.FlattenedKeys(opts...) })
+					m.do(call{entry: "FlattenedKeys", class: "after-" + s.entry, bound: bound, budget: budget, desc: d}, func() { c.FlattenedKeys(opts...) })
 				}
 			} else if st == stOK {
 				res.Ev("c_setter_calls_refused", 1)
@@ -338,7 +340,7 @@ func runNameUnit(m *mon, u int) bool {
 	}
 	// the name as a key of the caller's data
 	res.SetAdd("entry_point", "NewFrom(key)")
-	m.do(call{entry: "NewFrom", class: "name-" + ns.label, bound: bound, desc: func() string { return fmt.Sprintf("NewFrom({%s: 1}) options %s", short(name), o.name) }}, func() {
+	m.do(call{entry: "NewFrom", class: "name-" + ns.label, bound: bound, budget: budget, desc: func() string { return fmt.Sprintf("NewFrom({%s: 1}) options %s", short(name), o.name) }}, func() {
 		c, err := ucfg.NewFrom(map[string]interface{}{name: 1}, opts...)
 		if err == nil && c != nil {
 			var out map[string]interface{}
@@ -348,12 +350,12 @@ func runNameUnit(m *mon, u int) bool {
 	})
 	res.SetAdd("entry_point", "Merge(key)")
 	if c := build(); c != nil {
-		m.do(call{entry: "Merge", class: "name-" + ns.label, bound: bound, desc: func() string {
+		m.do(call{entry: "Merge", class: "name-" + ns.label, bound: bound, budget: budget, desc: func() string {
 			return fmt.Sprintf("Merge({%s: {k: [1]}}) options %s into shape %s", short(name), o.name, sh.name)
 		}}, func() {
 			c.Merge(map[string]interface{}{name: mp{"k": li{1}}}, opts...)
 		})
-		m.do(call{entry: "Unpack", class: "after-Merge", bound: bound, desc: func() string {
+		m.do(call{entry: "Unpack", class: "after-Merge", bound: bound, budget: budget, desc: func() string {
 			return fmt.Sprintf("after Merge({%s: {k: [1]}}) options %s into shape %s", short(name), o.name, sh.name)
 		}}, func() {
 			var out map[string]interface{}
